@@ -2027,6 +2027,10 @@ func (t *tScreen) UnregisterRuneFallback(orig rune) {
 }
 
 func (t *tScreen) CanDisplay(r rune, checkFallbacks bool) bool {
+	// the encoder is stateful and shared with the drawing code, and the
+	// fallback map can be changed concurrently
+	t.Lock()
+	defer t.Unlock()
 
 	if enc := t.encoder; enc != nil {
 		nb := make([]byte, 6)
@@ -2065,11 +2069,13 @@ func (t *tScreen) HasKey(k Key) bool {
 }
 
 func (t *tScreen) SetSize(w, h int) {
+	t.Lock()
 	if t.setWinSize != "" {
 		t.TPuts(t.ti.TParm(t.setWinSize, w, h))
 	}
 	t.cells.Invalidate()
 	t.resize()
+	t.Unlock()
 }
 
 func (t *tScreen) Resize(int, int, int, int) {}
@@ -2205,7 +2211,9 @@ func (t *tScreen) disengage() {
 
 // Beep emits a beep to the terminal.
 func (t *tScreen) Beep() error {
+	t.Lock()
 	t.writeString(string(byte(7)))
+	t.Unlock()
 	return nil
 }
 
